@@ -117,6 +117,7 @@ def gen_cases(seed, tier):
                 c['desc'].update(base=s, fault=f, at=i)
                 cases.append(c)
                 made += 1
+    cases += PC.state_stream(random.Random(seed + 78), 400 if quick else 6000, modes=(False,))
     # a context whose macros take comma-separated list arguments (real code only: that parser is outside the model)
     for s in docgen.exhaustive(docgen.SYM_COMMASEP, 3 if quick else 4):
         cases.append(PC.mk_case('commasep', s, False, 'commasep'))
